@@ -893,3 +893,131 @@ Proof.
   unfold is_markup. intro H. apply orb_prop in H as [H|H]; [apply orb_prop in H as [H|H]|];
   apply N.eqb_eq in H; subst; reflexivity.
 Qed.
+
+(* ------------------------------------ the parsed text denotes the value *)
+Lemma assoc_in_nodup {V} (m : list (bytes * V)) k v : NoDup (map fst m) -> In (k, v) m -> assoc k m = Some v.
+Proof.
+  induction m as [|[k' v'] r IH]; intros ND Hin; [destruct Hin|]. cbn [assoc].
+  cbn [map fst] in ND. inversion ND as [|? ? Hn NDr]; subst.
+  destruct Hin as [H|H].
+  - injection H as -> ->. rewrite bytes_eqb_refl. reflexivity.
+  - destruct (bytes_eqb k k') eqn:E.
+    + apply bytes_eqb_eq in E. subst k'. exfalso. apply Hn. apply (in_map fst) in H. exact H.
+    + apply IH; assumption.
+Qed.
+
+Section Faithful.
+  Variable ff : N -> bytes.
+  Hypothesis ff_ok : forall b, f_finite b = true ->
+    exists m e, forall rest, num_end rest -> parse_number (ff b ++ rest) = Some (m, e, rest).
+  (* the oracle hypothesis on float text: it rounds back to the same double *)
+  Hypothesis ff_round : forall b m e r, f_finite b = true ->
+    parse_number (ff b) = Some (m, e, r) -> rounds_to m e b = true.
+
+  Lemma jsonify_denotes : forall v, wfb v = true -> marshal_ok v = true ->
+    strings_valid v = true -> dates_read_back v = true -> denotesb (jsonify ff v) v = true.
+  Proof.
+    induction v as [|b|z|b|s|sec n o|l IH|m IH|b] using value_ind'; intros W Mk V D.
+    - reflexivity.
+    - cbn. apply eqb_reflx.
+    - cbn [jsonify denotesb]. unfold dec_is_int. cbn. apply Z.eqb_eq. lia.
+    - cbn [marshal_ok] in Mk. cbn [jsonify]. destruct (ff_ok b Mk) as (mm & e & P).
+      specialize (P [] I). rewrite app_nil_r in P. rewrite P. cbn [denotesb]. eapply ff_round; eassumption.
+    - cbn [jsonify denotesb]. cbn [strings_valid] in V. rewrite coerce_valid by exact V. apply bytes_eqb_refl.
+    - cbn [jsonify denotesb]. cbn [dates_read_back] in D. unfold date_reads_back in D.
+      destruct (parse_rfc3339 (date_text sec n o)) as [[[s' n'] off]|]; [exact D|discriminate D].
+    - cbn [jsonify denotesb].
+      cbn [wfb marshal_ok strings_valid dates_read_back] in W, Mk, V, D. rewrite forallb_forall in W, Mk, V, D.
+      induction IH as [|x r Hx _ IHr]; [reflexivity|]. cbn [map].
+      rewrite Hx; [|apply W; left; reflexivity|apply Mk; left; reflexivity|apply V; left; reflexivity|apply D; left; reflexivity].
+      cbn [andb]. apply IHr; intros y Hy; [apply W|apply Mk|apply V|apply D]; right; exact Hy.
+    - cbn [jsonify].
+      set (ms0 := map (fun kv : bytes * value => (coerce (fst kv), jsonify ff (snd kv))) m).
+      set (ms := map snd (isort mleb (map (fun kv : bytes * value => (esc_string (fst kv), (coerce (fst kv), jsonify ff (snd kv)))) m))).
+      assert (Pm : Permutation ms ms0).
+      { unfold ms, ms0. rewrite <- (map_map (fun kv : bytes * value => (esc_string (fst kv), (coerce (fst kv), jsonify ff (snd kv)))) snd).
+        apply Permutation_map, Permutation_sym, isort_perm. }
+      pose proof (wfb_obj_NoDup m W) as ND. pose proof (wfb_obj_members m W) as Wm. pose proof (mok_obj_members m Mk) as Mm.
+      cbn [strings_valid dates_read_back] in V, D. rewrite forallb_forall in V, D. rewrite Forall_forall in IH, Wm, Mm.
+      assert (K0 : map fst ms0 = map fst m).
+      { unfold ms0. rewrite map_map. apply map_ext_in. intros kv Hkv. cbn [fst].
+        specialize (V kv Hkv). apply andb_prop in V as [V _]. apply coerce_valid; exact V. }
+      cbn [denotesb]. apply andb_true_intro. split; [apply andb_true_intro; split|].
+      + apply Nat.eqb_eq. rewrite (Permutation_length Pm). unfold ms0. apply map_length.
+      + apply NoDup_nodup_keys. eapply Permutation_NoDup; [apply Permutation_map, Permutation_sym, Pm|]. rewrite K0. exact ND.
+      + assert (G : forall l, (forall kj, In kj l -> In kj ms) ->
+          (fix go (ms : list (bytes * json)) : bool :=
+             match ms with
+             | [] => true
+             | (k, j) :: r => match assoc k m with Some v => denotesb j v | None => false end && go r
+             end) l = true).
+        { induction l as [|[k j] r IHr]; intro Sub; [reflexivity|].
+          assert (Hin : In (k, j) ms0) by (eapply Permutation_in; [exact Pm|apply Sub; left; reflexivity]).
+          unfold ms0 in Hin. apply in_map_iff in Hin as ([k0 v0] & E & Hin). cbn [fst snd] in E. injection E as <- <-.
+          assert (Vk : valid_utf8 k0 = true) by (specialize (V _ Hin); apply andb_prop in V as [V _]; exact V).
+          rewrite (coerce_valid k0 Vk). rewrite (assoc_in_nodup m k0 v0 ND Hin).
+          pose proof (IH _ Hin) as IHv. cbn [snd] in IHv.
+          rewrite IHv; [|apply (Wm _ Hin)|apply (Mm _ Hin)| |apply (D _ Hin)].
+          - cbn [andb]. apply IHr. intros kj Hkj. apply Sub. right; exact Hkj.
+          - specialize (V _ Hin). apply andb_prop in V as [_ V]. exact V. }
+        apply G. intros kj H; exact H.
+    - cbn [jsonify denotesb]. rewrite b64_roundtrip; [apply bytes_eqb_refl|].
+      cbn [wfb] in W. unfold wf_bytes, wf_bytesb in *. apply Forall_forall. rewrite forallb_forall in W.
+      intros x Hx. apply N.ltb_lt. apply W; exact Hx.
+  Qed.
+End Faithful.
+
+(* bounded, by evaluation: RFC 3339 text reads back on a grid of 12 000 instants
+   spread over the years 1..9999 (step 26 294 825 s), with varying nanoseconds and
+   eight zone offsets (instants whose local year leaves 1..9999 are skipped, as
+   the encoder refuses them) *)
+Definition grid_offsets : list Z := [-1; 0; 60; -120; 330; 345; 840; -720].
+Definition date_grid : list (Z * Z * Z) :=
+  filter (fun t => let '(s, _, o) := t in date_ok s o)
+    (map (fun i => (-62135596800 + i * 26294825, (i * 123456789) mod 1000000000,
+                    nth (Z.to_nat (i mod 8)) grid_offsets 0))
+         (nat_seq_Z (N.to_nat 12000) 0)).
+Definition date_grid_ok : bool :=
+  forallb (fun t => let '(s, n, o) := t in date_reads_back s n o) date_grid
+  && (11900 <? N.of_nat (length date_grid))%N.
+Lemma dates_read_back_on_grid : date_grid_ok = true.
+Proof. vm_cast_no_check (eq_refl true). Qed.
+
+(* ---------------------------------------------- the oracle hypotheses, named *)
+Definition float_text_ok (ff : N -> bytes) : Prop :=
+  forall b, f_finite b = true ->
+    exists m e, forall rest, num_end rest -> parse_number (ff b ++ rest) = Some (m, e, rest).
+Definition float_text_rounds (ff : N -> bytes) : Prop :=
+  forall b m e r, f_finite b = true -> parse_number (ff b) = Some (m, e, r) -> rounds_to m e b = true.
+
+Lemma float_text_ok_const0 : float_text_ok (fun _ => [48%N]).
+Proof.
+  intros b _. exists 0, 0. intros rest En.
+  apply (parse_number_digits false [48%N] rest); [repeat constructor; unfold digitP; lia|discriminate|reflexivity|exact En].
+Qed.
+
+Lemma json_string_roundtrip ff s : wf_bytesb s = true ->
+  parse_json (to_json ff (VStr s)) = Some (JStr (coerce s)).
+Proof.
+  intro W. change (to_json ff (VStr s)) with (to_json (fun _ => [48%N]) (VStr s)).
+  rewrite (json_parse_back _ float_text_ok_const0 (VStr s)); [reflexivity|exact W|reflexivity].
+Qed.
+
+Lemma json_roundtrip ff v : float_text_ok ff -> float_text_rounds ff ->
+  wfb v = true -> marshal_ok v = true -> strings_valid v = true -> dates_read_back v = true ->
+  exists j, parse_json (to_json ff v) = Some j /\ denotesb j v = true.
+Proof.
+  intros Ok Rd W Mk V D. exists (jsonify ff v). split.
+  - apply json_parse_back; assumption.
+  - apply jsonify_denotes; assumption.
+Qed.
+
+Lemma json_string_roundtrip_valid ff s : wf_bytesb s = true -> valid_utf8 s = true ->
+  parse_json (to_json ff (VStr s)) = Some (JStr s).
+Proof. intros W V. rewrite <- (coerce_valid s V) at 2. apply json_string_roundtrip; exact W. Qed.
+
+Lemma json_int_roundtrip ff z : wfb (VInt z) = true -> parse_json (to_json ff (VInt z)) = Some (JNum z 0).
+Proof.
+  intro W. change (to_json ff (VInt z)) with (to_json (fun _ => [48%N]) (VInt z)).
+  exact (json_parse_back _ float_text_ok_const0 (VInt z) W eq_refl).
+Qed.
